@@ -129,6 +129,13 @@ def _targets_vs_definition(case):
 _LOGIT = st.integers(-12, 12).map(lambda k: k / 4)
 
 
+def _saturate(draw, row):
+    """Now and then one class gets a logit so large that its negative log-probability is exactly 0 in float32."""
+    if draw(st.integers(0, 3)) == 0:
+        row[draw(st.integers(0, len(row) - 1))] = draw(st.sampled_from([100.0, 30.0, 60.0]))
+    return row
+
+
 @st.composite
 def _loss_case(draw, tier):
     big = tier == "thorough"
@@ -159,7 +166,7 @@ def _loss_case(draw, tier):
     return {
         "b": {"N": N, "R": R, "H": H, "A": A, "eos": eos, "eos_kind": eos_kind, "refs": refs, "hyps": hyps},
         "V": V,
-        "logits": [[[draw(_LOGIT) for _ in range(V)] for _ in range(H)] for _ in range(N)],
+        "logits": [[_saturate(draw, [draw(_LOGIT) for _ in range(V)]) for _ in range(H)] for _ in range(N)],
         "weight": [draw(st.integers(1, 8)) / 4 for _ in range(V)] if use_w else None,
         "costs": draw(G.dyadic_costs(force_ties=True)),
         "include_eos": include_eos,
@@ -173,7 +180,7 @@ def _loss_case(draw, tier):
 
 @subcheck("C03", "ocd_loss", lambda tier: _loss_case(tier), 2500, 50000,
           doc="hard OCD loss vs mean over the oracle's target set of -log softmax(logits)[t] (x class weight), 0 where the set is empty or the prefix does not exist; none / sum exact, mean in any of its natural readings",
-          required_classes=["multi_target", "empty_target_set", "reduction_sum", "reduction_mean", "weighted", "mean_ragged_target_counts"])
+          required_classes=["multi_target", "empty_target_set", "reduction_sum", "reduction_mean", "weighted", "mean_ragged_target_counts", "saturated_logits"])
 def _ocd_loss(case):
     import torch
 
@@ -261,6 +268,8 @@ def _ocd_loss(case):
         cl.append("empty_target_set")
     if case["weight"]:
         cl.append("weighted")
+    if any(max(r) >= 30.0 for nrow in case["logits"] for r in nrow):
+        cl.append("saturated_logits")
     return Info(nontrivial=multi or G.cost_class(case["costs"]) == "costs_unequal", classes=cl)
 
 
@@ -340,4 +349,23 @@ def _long_pairs(case):
     if m >= 16:
         info.classes.append("len_ge_16")
     info.nontrivial = True
+    return info
+
+
+@st.composite
+def _eos_wide_case(draw, tier):
+    return {
+        "b": draw(G.eos_padded_wide_batch(tier, max_n=2)),
+        "costs": draw(G.dyadic_costs(force_ties=True)),
+        "include_eos": draw(st.booleans()), "batch_first": draw(st.booleans()), "exclude_last": draw(st.booleans()),
+        "padding": -100, "entry": "function", "layout": "contiguous",
+    }
+
+
+@subcheck("C03", "eos_padded_wide", lambda tier: _eos_wide_case(tier), 40, 800,
+          doc="transcripts of <= 6 tokens in tensors 257..530 (thorough ..2049) wide, padded with copies of eos: targets vs the DP lemma")
+def _eos_padded_wide(case):
+    info = _oc_check(case, brute=False)
+    info.nontrivial = True
+    info.classes.append("width_ge_257")
     return info
